@@ -902,6 +902,46 @@ fn do_tree_op(st: &mut TreeSt, toks: &[&str], c: &mut Ctx) -> String {
             if values != wv {
                 c.viol("C02", "values() differs");
             }
+            // the std Iterator adaptors (nth, skip, count, last, step_by, ...) are defined through next() unless an
+            // iterator overrides them: every iterator must answer them like the reference sequence, for positions
+            // before, at and past the end
+            let n = want.len();
+            for pos in [0usize, n.saturating_sub(1), n, n + 1] {
+                let w = want.get(pos).cloned();
+                let checks: [(&str, Option<String>); 4] = [
+                    ("items().nth", t.items().nth(pos).map(|(k, v)| s_kv(k, v))),
+                    ("items_fast().nth", t.items_fast().nth(pos).map(|(k, v)| s_kv(k, v))),
+                    ("items().skip().next", t.items().skip(pos).next().map(|(k, v)| s_kv(k, v))),
+                    ("range(..).nth", t.range(..).nth(pos).map(|(k, v)| s_kv(k, v))),
+                ];
+                for (name, got) in checks {
+                    if got != w {
+                        c.viol("C02", &format!("{}({}) = {:?} want {:?}", name, pos, got, w));
+                    }
+                }
+                if t.keys().nth(pos).map(s_key) != wk.get(pos).cloned() {
+                    c.viol("C02", &format!("keys().nth({}) differs", pos));
+                }
+                if t.values().nth(pos).map(|v| v.v.to_string()) != wv.get(pos).cloned() {
+                    c.viol("C02", &format!("values().nth({}) differs", pos));
+                }
+            }
+            if t.items().take(iter_limit()).count() != n || t.items_fast().take(iter_limit()).count() != n || t.keys().take(iter_limit()).count() != n {
+                c.viol("C02", "count() of an iterator differs from the number of entries");
+            }
+            if t.items().take(iter_limit()).last().map(|(k, v)| s_kv(k, v)) != want.last().cloned() {
+                c.viol("C02", "items().last() differs");
+            }
+            let sb: Vec<String> = t.items().step_by(3).take(iter_limit()).map(|(k, v)| s_kv(k, v)).collect();
+            let wsb: Vec<String> = want.iter().step_by(3).cloned().collect();
+            if sb != wsb {
+                c.viol("C02", "items().step_by(3) differs");
+            }
+            let mut it = t.items();
+            let drained = it.by_ref().take(n).count();
+            if drained != n || it.nth(0).is_some() {
+                c.viol("C02", "nth(0) on a drained iterator is not None");
+            }
             format!(
                 "items=[{}] fast=[{}] keys=[{}] values=[{}]",
                 items.join(" "),
